@@ -1,0 +1,329 @@
+/**
+ * @file verif_hooks.cpp
+ * Observation hooks for external verification tooling, see verif_hooks.h.
+ *
+ * @license GPL v2+
+ */
+#include "verif_hooks.h"
+
+#ifdef UNCRUSTIFY_VERIF
+
+#include "options_for_QT.h"
+#include "uncrustify.h"
+#include "uncrustify_types.h"
+
+#include <cstdio>
+#include <cstdlib>
+#include <string>
+#include <unordered_map>
+
+using namespace uncrustify;
+
+
+static FILE                                      *verif_fp   = nullptr;
+static bool                                      verif_init  = false;
+static int                                       verif_depth = 0;
+static std::string                               verif_rule;
+static std::string                               verif_ops;
+static int                                       verif_flag_trail = -1;
+static int                                       verif_flag_tabsp = -1;
+static std::unordered_map<const Chunk *, size_t> verif_index;
+
+
+static FILE *verif_file()
+{
+   if (!verif_init)
+   {
+      verif_init = true;
+      const char *path = getenv("UNC_VERIF_OUT");
+
+      if (  path != nullptr
+         && path[0] != 0)
+      {
+         verif_fp = fopen(path, "ab");
+      }
+   }
+   return(verif_fp);
+}
+
+
+bool verif_active()
+{
+   return(verif_file() != nullptr);
+}
+
+
+static void verif_put_text(FILE *fp, const UncText &text)
+{
+   if (text.size() == 0)
+   {
+      fputc('-', fp);
+      return;
+   }
+
+   for (size_t idx = 0; idx < text.size(); idx++)
+   {
+      fprintf(fp, "%s%x", (idx == 0) ? "" : ".", static_cast<unsigned int>(text[idx]));
+   }
+}
+
+
+void verif_dump_chunks(const char *point)
+{
+   FILE *fp = verif_file();
+
+   if (fp == nullptr)
+   {
+      return;
+   }
+   size_t count = 0;
+
+   for (Chunk *pc = Chunk::GetHead(); pc->IsNotNullChunk(); pc = pc->GetNext())
+   {
+      count++;
+   }
+
+   fprintf(fp, "DUMP point=%s n=%zu newline=", point, count);
+   verif_put_text(fp, cpd.newline);
+   fprintf(fp, " enc=%d bom=%d lang=%zx le=%u,%u,%u frag=%d fragcols=%u inpp=%d\n",
+           static_cast<int>(cpd.enc), cpd.bom ? 1 : 0, cpd.lang_flags,
+           cpd.le_counts[0], cpd.le_counts[1], cpd.le_counts[2],
+           cpd.frag ? 1 : 0, cpd.frag_cols, (cpd.in_preproc == CT_PREPROC) ? 1 : 0);
+   size_t idx = 0;
+
+   for (Chunk *pc = Chunk::GetHead(); pc->IsNotNullChunk(); pc = pc->GetNext())
+   {
+      fprintf(fp, "C i=%zu t=%s pt=%s x=", idx, get_token_name(pc->GetType()),
+              get_token_name(pc->GetParentType()));
+      verif_put_text(fp, pc->GetStr());
+      fprintf(fp, " ol=%zu oc=%zu oe=%zu ps=%zu col=%zu ci=%zu nl=%zu nc=%zu lv=%zu bl=%zu pl=%zu fl=%llx at=%d\n",
+              pc->GetOrigLine(), pc->GetOrigCol(), pc->GetOrigColEnd(), pc->GetOrigPrevSp(),
+              pc->GetColumn(), pc->GetColumnIndent(), pc->GetNlCount(), pc->GetNlColumn(),
+              pc->GetLevel(), pc->GetBraceLevel(), pc->GetPpLevel(),
+              static_cast<unsigned long long>(static_cast<E_PcfFlag>(pc->GetFlags())),
+              pc->GetAfterTab() ? 1 : 0);
+      idx++;
+   }
+
+   fprintf(fp, "ENDDUMP point=%s\n", point);
+   fflush(fp);
+} // verif_dump_chunks
+
+
+void verif_dump_digest(const char *point)
+{
+   FILE *fp = verif_file();
+
+   if (fp == nullptr)
+   {
+      return;
+   }
+   // FNV-1a over "name=value;" of every registered option
+   unsigned long long hash   = 1469598103934665603ULL;
+   size_t             nondef = 0;
+
+   for (size_t gi = 0; get_option_group(gi) != nullptr; gi++)
+   {
+      for (GenericOption *opt : get_option_group(gi)->options)
+      {
+         std::string item = std::string(opt->name()) + "=" + opt->str() + ";";
+
+         for (char c : item)
+         {
+            hash ^= static_cast<unsigned char>(c);
+            hash *= 1099511628211ULL;
+         }
+
+         if (!opt->isDefault())
+         {
+            nondef++;
+         }
+      }
+   }
+
+   fprintf(fp, "DIGEST point=%s", point);
+   fprintf(fp, " last_char=%d do_check=%d check_fail_cnt=%d if_changed=%d",
+           cpd.last_char, cpd.do_check ? 1 : 0, cpd.check_fail_cnt, cpd.if_changed ? 1 : 0);
+   fprintf(fp, " lang_flags=%zx lang_forced=%d unc_off=%d unc_off_used=%d",
+           cpd.lang_flags, cpd.lang_forced ? 1 : 0, cpd.unc_off ? 1 : 0, cpd.unc_off_used ? 1 : 0);
+   fprintf(fp, " column=%zu spaces=%u ifdef_over_whole_file=%d frag=%d frag_cols=%u",
+           cpd.column, static_cast<unsigned int>(cpd.spaces), cpd.ifdef_over_whole_file,
+           cpd.frag ? 1 : 0, cpd.frag_cols);
+   fprintf(fp, " le_counts=%u,%u,%u newline=", cpd.le_counts[0], cpd.le_counts[1], cpd.le_counts[2]);
+   verif_put_text(fp, cpd.newline);
+   fprintf(fp, " did_newline=%d in_preproc=%d preproc_ncnl_count=%d",
+           cpd.did_newline ? 1 : 0, static_cast<int>(cpd.in_preproc), cpd.preproc_ncnl_count);
+   fprintf(fp, " output_trailspace=%d output_tab_as_space=%d bom=%d enc=%d",
+           cpd.output_trailspace ? 1 : 0, cpd.output_tab_as_space ? 1 : 0,
+           cpd.bom ? 1 : 0, static_cast<int>(cpd.enc));
+   fprintf(fp, " changes=%d pass_count=%d al_cnt=%zu al_c99_array=%d warned_tab=%d pp_level=%d",
+           cpd.changes, cpd.pass_count, cpd.al_cnt, cpd.al_c99_array ? 1 : 0,
+           cpd.warned_unable_string_replace_tab_chars ? 1 : 0, cpd.pp_level);
+   fprintf(fp, " bout_size=%zu qt_found=%d qt_level=%zu qt_restore=%d list_empty=%d",
+           (cpd.bout != nullptr) ? cpd.bout->size() : 0,
+           QT_SIGNAL_SLOT_found ? 1 : 0, QT_SIGNAL_SLOT_level, restoreValues ? 1 : 0,
+           Chunk::GetHead()->IsNullChunk() ? 1 : 0);
+   fprintf(fp, " opt_hash=%llx opt_nondefault=%zu\n", hash, nondef);
+   fflush(fp);
+} // verif_dump_digest
+
+
+void verif_note_rule(const char *rule)
+{
+   if (verif_file() != nullptr)
+   {
+      verif_rule = rule;
+   }
+}
+
+
+void verif_space_begin()
+{
+   if (verif_file() == nullptr)
+   {
+      return;
+   }
+   verif_index.clear();
+   size_t idx = 0;
+
+   for (Chunk *pc = Chunk::GetHead(); pc->IsNotNullChunk(); pc = pc->GetNext())
+   {
+      verif_index[pc] = idx++;
+   }
+
+   verif_rule.clear();
+}
+
+
+void verif_space(const Chunk *first, const Chunk *second, int av, int min_sp,
+                 size_t col_before, size_t col_after)
+{
+   FILE *fp = verif_file();
+
+   if (fp == nullptr)
+   {
+      return;
+   }
+   fprintf(fp, "SP a=%zu b=%zu rule=", verif_index[first], verif_index[second]);
+
+   for (char c : verif_rule)
+   {
+      fputc((c == ' ') ? '~' : c, fp);
+   }
+
+   if (verif_rule.empty())
+   {
+      fputc('-', fp);
+   }
+   fprintf(fp, " av=%d min=%d forced=%d c0=%zu c1=%zu\n", av, min_sp,
+           first->TestFlags(PCF_FORCE_SPACE) ? 1 : 0, col_before, col_after);
+   verif_rule.clear();
+}
+
+
+static void verif_flush_ops(FILE *fp)
+{
+   if (!verif_ops.empty())
+   {
+      fprintf(fp, "OPS%s\n", verif_ops.c_str());
+      verif_ops.clear();
+   }
+}
+
+
+static void verif_note_flags()
+{
+   int trail = cpd.output_trailspace ? 1 : 0;
+   int tabsp = cpd.output_tab_as_space ? 1 : 0;
+
+   if (trail != verif_flag_trail)
+   {
+      verif_ops       += trail ? " T1" : " T0";
+      verif_flag_trail = trail;
+   }
+
+   if (tabsp != verif_flag_tabsp)
+   {
+      verif_ops       += tabsp ? " S1" : " S0";
+      verif_flag_tabsp = tabsp;
+   }
+}
+
+
+void verif_out_chunk(const Chunk *pc)
+{
+   FILE *fp = verif_file();
+
+   if (fp == nullptr)
+   {
+      return;
+   }
+   verif_flush_ops(fp);
+
+   if (pc == nullptr)
+   {
+      // start of output_text(): the flags are reported afresh for every file
+      verif_flag_trail = -1;
+      verif_flag_tabsp = -1;
+      verif_index.clear();
+      size_t idx = 0;
+
+      for (Chunk *tmp = Chunk::GetHead(); tmp->IsNotNullChunk(); tmp = tmp->GetNext())
+      {
+         verif_index[tmp] = idx++;
+      }
+
+      fprintf(fp, "OUTBEGIN col=%zu spaces=%u last=%d dn=%d\n", cpd.column,
+              static_cast<unsigned int>(cpd.spaces), cpd.last_char, cpd.did_newline ? 1 : 0);
+      return;
+   }
+   fprintf(fp, "OC i=%zu t=%s col=%zu dn=%d\n", verif_index[pc], get_token_name(pc->GetType()),
+           cpd.column, cpd.did_newline ? 1 : 0);
+}
+
+
+void verif_out_raw(int ch)
+{
+   if (verif_file() != nullptr)
+   {
+      char buf[16];
+      snprintf(buf, sizeof(buf), " R%x", static_cast<unsigned int>(ch));
+      verif_ops += buf;
+   }
+}
+
+
+void verif_out_end()
+{
+   FILE *fp = verif_file();
+
+   if (fp != nullptr)
+   {
+      verif_flush_ops(fp);
+      fprintf(fp, "OUTEND col=%zu spaces=%u last=%d\n", cpd.column,
+              static_cast<unsigned int>(cpd.spaces), cpd.last_char);
+      fflush(fp);
+   }
+}
+
+
+verif_addchar_scope::verif_addchar_scope(unsigned int ch, bool is_literal)
+{
+   if (  verif_depth == 0
+      && verif_file() != nullptr)
+   {
+      char buf[16];
+      verif_note_flags();
+      snprintf(buf, sizeof(buf), " %c%x", is_literal ? 'L' : 'A', ch);
+      verif_ops += buf;
+   }
+   verif_depth++;
+}
+
+
+verif_addchar_scope::~verif_addchar_scope()
+{
+   verif_depth--;
+}
+
+#endif /* UNCRUSTIFY_VERIF */
